@@ -45,7 +45,42 @@ def _res_to_dict(r):
                 path=r.path, detail=r.detail, kind=r.kind)
 
 
+class _TaskTimeout(BaseException):
+    """raised by SIGALRM inside a worker: the task is reported undecided, never as a violation"""
+
+
+def _alarm(sig, frm):
+    raise _TaskTimeout()
+
+
+def task_budget():
+    d = 900 if os.environ.get("PYVC_TIER", "quick") == "quick" else 3600
+    return int(os.environ.get("PYVC_TASK_TIMEOUT", d))
+
+
 def _run_contract_task(task):
+    import signal
+    from . import smt
+    global _V
+    t0 = time.time()
+    contracts, lemmas = _MODS
+    idx, names = task
+    c = contracts[idx]
+    budget = task_budget()
+    signal.signal(signal.SIGALRM, _alarm)
+    signal.alarm(budget)
+    try:
+        return _run_contract_task_inner(task)
+    except _TaskTimeout:
+        _V = None   # the verifier may be in an inconsistent state
+        which = c.name if names is None else f"{c.name} scenarios {names[0]}..{names[-1]}"
+        return dict(idx=idx, ok=False, timeout=True, error=f"timeout: {which}: no verdict within {budget}s", tb="",
+                    secs=time.time() - t0)
+    finally:
+        signal.alarm(0)
+
+
+def _run_contract_task_inner(task):
     from . import smt
     t0 = time.time()
     contracts, lemmas = _MODS
@@ -139,7 +174,7 @@ def aggregate(prop, contracts, lemmas, out):
     for i, r in sorted(out["contracts"].items()):
         c = contracts[i]
         if not r["ok"]:
-            crashes.append(f"{c.name}: {r['error']}\n{r.get('tb','')}")
+            crashes.append(("TIMEOUT " if r.get("timeout") else "") + f"{c.name}: {r['error']}\n{r.get('tb','')}")
             continue
         meta[c.name] = r["info"]
         meta[c.name]["target"] = c.target
